@@ -54,6 +54,7 @@ def showErr : PErr → String
   | .unhandled => "ERR:unhandled-token"
   | .malformed => "ERR:malformed"
   | .trailing => "ERR:trailing"
+  | .unterminated => "ERR:unterminated"
   | .assertion => "ERR:AssertionError"
   | .fuel => "ERR:model-fuel"
 
@@ -79,13 +80,15 @@ def handle (cmd : String) (fs : List String) : String :=
     | .ok a => "OK:" ++ encodeStr a
     | .error .valueError => "ERR:ValueError"
     | .error .mesonException => "ERR:MesonException"
-  | "lex", [r] => ",".intercalate ((lexer (decodeStr r)).map showTok)
+  | "lex", [r] =>
+    let l := lexer (decodeStr r)
+    ",".intercalate (l.toks.map showTok ++ (if l.unterminated then ["ERR:unterminated"] else []))
   | "parse", [ts] =>
     match parse (readToks ts) with
     | .ok e => "OK:" ++ showIR e
     | .error e => showErr e
   | "lexparse", [r] =>
-    match parse (lexer (decodeStr r)) with
+    match parseLexed (lexer (decodeStr r)) with
     | .ok e => "OK:" ++ showIR e
     | .error e => showErr e
   | "evalcfg", [r, cs] =>
